@@ -10,10 +10,14 @@ from vf.unit import Unit, Fragment, AnchorLost
 from .common import HEADER, FOOTER, contract, extract_struct, extract_struct_priv
 
 
-def build():
+def build(whole=False):
     from . import u3_interpretation
-    u = Unit("u6_writer_step")
-    u.raw("#![feature(allocator_api)]\n" + HEADER, "header")
+    u = Unit("u14_writer_builder" if whole else "u6_writer_step")
+    OUTSIDE = """// stand-in for the inner iterator of `mapping.iter().filter_map(Result::ok).peekable()` (unit u14 only; never executed)
+pub struct OkRecords<'s>(std::marker::PhantomData<&'s ()>);
+impl<'s> Iterator for OkRecords<'s> { type Item = ProguardRecord<'s>; fn next(&mut self) -> Option<ProguardRecord<'s>> { unimplemented!() } }
+"""
+    u.raw("#![feature(allocator_api)]\n" + (HEADER.replace("verus! {", OUTSIDE + "verus! {", 1) if whole else HEADER), "header")
     u.raw("use std::collections::{BTreeMap, HashSet};\nuse vstd::std_specs::hash::*;\n", "glue")
     u.raw(contract("std_specs.rs"), "std_specs")
     mg = u.source("src/mapping.rs")
@@ -159,6 +163,7 @@ pub open spec fn stored_member(lm: Option<LineMapping>, t: StringTable, obfuscat
             ==> vec_at(final(current_class).members_by_params, (obfuscated, arguments))
                 == vec_at(old(current_class).members_by_params, (obfuscated, arguments)).push(stored_member(line_mapping, *final(string_table), obfuscated, original, original_class, arguments, old(current_class).class.file_name_offset)),
         /*@L:strings_already_in_the_table_keep_their_offsets:C09*/ forall|x: Seq<char>| #[trigger] offset_of(*old(string_table), x) is Some ==> offset_of(*final(string_table), x) == offset_of(*old(string_table), x),
+        /*@L:every_method_record_counts_once:C09*/ final(current_class).class.members_len == old(current_class).class.members_len + 1,
         /*@L:class_header_fields_untouched:C09*/ final(current_class).name == old(current_class).name
             && final(current_class).class.obfuscated_name_offset == old(current_class).class.obfuscated_name_offset
             && final(current_class).class.original_name_offset == old(current_class).class.original_name_offset
@@ -211,30 +216,120 @@ pub open spec fn stored_member(lm: Option<LineMapping>, t: StringTable, obfuscat
             } else { final(current_class).class.file_name_offset == old(current_class).class.file_name_offset && *final(string_table) == *old(string_table) },
         wf_cip(*old(current_class)) ==> wf_cip(*final(current_class)),
         final(current_class).name == old(current_class).name && final(current_class).unique_methods == old(current_class).unique_methods,
+        final(current_class).class.members_len == old(current_class).class.members_len && final(current_class).class.members_by_params_len == old(current_class).class.members_by_params_len,
 {
 """, suffix="\n}\n")
     # ---------------- final flush after the loop: the last class is stored like every other one ----------------
     mfl = [m for m in re.finditer(r"if !current_class\.name\.is_empty\(\) \{", wf.orig)]
-    if len(mfl) < 2:
+    flush_found = len(mfl) >= 2
+    if not flush_found and not whole:
         raise AnchorLost("write: final flush `if !current_class.name.is_empty() {` (second occurrence) not found")
-    fa = mfl[-1].start()
-    toks = wf._toks()
-    from vf.rustlex import match_close
-    i = next(ix for ix, t in enumerate(toks) if t[1] == mfl[-1].end() - 1)
-    fb = toks[match_close(wf.orig, toks, i)][2]
-    r4 = Fragment(u, wf.file, raw.src, wf.start + fa, wf.start + fb, "region", "final-flush")
-    r4.qualname = "%s[final-flush]" % wf.qualname
-    r4.contracted = True
-    r4.props_all = ["C04", "C02", "C09"]
-    r4.props_safety = ["C13"]
-    r4.replace_all_re(r"classes\.insert\(current_class\.name, current_class\);", "shim_btree_insert(classes, current_class.name, current_class);", "R2", min_count=0)
-    r4.replace_all_re(r"classes\.entry\(current_class\.name\)\.or_insert\(current_class\);", "shim_btree_or_insert(classes, current_class.name, current_class);", "R2",
-                      why="BTreeMap entry API (or_insert keeps an existing value) behind a shim", min_count=0)
-    u.emit(r4, prefix="""fn region_writer_final_flush<'d>(classes: &mut BTreeMap<&'d str, ClassInProgress<'d>>, current_class: ClassInProgress<'d>)
+    if flush_found:
+        fa = mfl[-1].start()
+        toks = wf._toks()
+        from vf.rustlex import match_close
+        i = next(ix for ix, t in enumerate(toks) if t[1] == mfl[-1].end() - 1)
+        fb = toks[match_close(wf.orig, toks, i)][2]
+        r4 = Fragment(u, wf.file, raw.src, wf.start + fa, wf.start + fb, "region", "final-flush")
+        r4.qualname = "%s[final-flush]" % wf.qualname
+        r4.contracted = True
+        r4.props_all = ["C04", "C02", "C09"]
+        r4.props_safety = ["C13"]
+        r4.replace_all_re(r"classes\.insert\(current_class\.name, current_class\);", "shim_btree_insert(classes, current_class.name, current_class);", "R2", min_count=0)
+        r4.replace_all_re(r"classes\.entry\(current_class\.name\)\.or_insert\(current_class\);", "shim_btree_or_insert(classes, current_class.name, current_class);", "R2",
+                          why="BTreeMap entry API (or_insert keeps an existing value) behind a shim", min_count=0)
+        u.emit(r4, prefix="""fn region_writer_final_flush<'d>(classes: &mut BTreeMap<&'d str, ClassInProgress<'d>>, current_class: ClassInProgress<'d>)
+        ensures
+            /*@L:last_class_is_stored_like_every_other_one_last_definition_wins:C04,C02,C09*/ bmap(*final(classes))
+                == (if current_class.name@.len() > 0 { bmap(*old(classes)).insert(current_class.name, current_class) } else { bmap(*old(classes)) }),
+    {
+    """, suffix="\n}\n")
+
+    if whole:
+        # ---------------- U14: the whole collection loop of `write`: plumbing + the four regions above called in place ----------------
+        u.raw(contract("peek_model.rs"), "peek_model")
+        extract_struct_priv(u, mg, "ProguardMapping")
+        u.raw("""#[verifier::external_type_specification]
+#[verifier::external_body]
+pub struct ExOkRecords<'s>(OkRecords<'s>);
+// the Ok items of `mapping.iter()`, in file order (the stream itself is specified in unit u7: records(bytes))
+pub uninterp spec fn ok_records<'s>(m: ProguardMapping<'s>) -> Seq<ProguardRecord<'s>>;
+#[verifier::external_body]
+fn shim_ok_records<'s>(mapping: &ProguardMapping<'s>) -> (r: std::iter::Peekable<OkRecords<'s>>)
+    ensures pk_rest(r) == ok_records(*mapping),
+{ unimplemented!() /* body in /repo: mapping.iter().filter_map(Result::ok).peekable() */ }
+#[verifier::external_body]
+fn shim_btree_new<'d>() -> (r: BTreeMap<&'d str, ClassInProgress<'d>>) ensures bmap(r) == Map::<&'d str, ClassInProgress<'d>>::empty() { BTreeMap::new() }
+#[verifier::external_body]
+fn shim_string_table_new() -> (r: StringTable) { unimplemented!() /* StringTable::new() */ }
+// the values of a BTreeMap (ascending key order) are exactly the values of its map view
+#[verifier::external_body]
+pub proof fn axiom_vals_in_bmap<'d>(m: BTreeMap<&'d str, ClassInProgress<'d>>)
+    ensures forall|i: int| 0 <= i < vals(m).len() ==> exists|k: &'d str| bmap(m).contains_key(k) && bmap(m)[k] == #[trigger] vals(m)[i],
+{}
+pub open spec fn all_wf<'d>(m: Map<&'d str, ClassInProgress<'d>>) -> bool { forall|k: &'d str| m.contains_key(k) ==> wf_cip(#[trigger] m[k]) }
+""", "glue")
+        start_m = re.search(r"let\s+mut\s+string_table\s*=\s*StringTable::new\(\)\s*;", wf.orig)
+        end_m = re.search(r"let\s+mut\s+writer\s*=\s*PaddedWriter::new\(", wf.orig)
+        if not start_m or not end_m:
+            raise AnchorLost("write: start / end of the collection part not found")
+        ce = fb if flush_found else end_m.start()
+        cw = Fragment(u, wf.file, raw.src, wf.start + start_m.start(), wf.start + ce, "region", "collect")
+        cw.qualname = "%s[collect]" % wf.qualname
+        cw.contracted = True
+        cw.props_all = ["C09", "C02", "C03", "C04"]
+        cw.props_safety = ["C13"]
+        off = start_m.start()
+        # R11: arm bodies / final flush => calls of the region functions verified above
+        cw.replace_span(ra - off, rb - off, "region_writer_method_arm(line_mapping, &mut string_table, &mut current_class, obfuscated, original, original_class, arguments, shim_peek(&mut records));",
+                        "R11", "arm body => call of the region function that was verified from this very text")
+        cw.replace_span(a2 - off, b2 - off, "current_class = region_writer_class_arm(&mut classes, current_class, &mut string_table, original, obfuscated);", "R11")
+        cw.replace_span(a3 - off, b3 - off, "region_writer_header_arm(&mut current_class, &mut string_table, key, file_name);", "R11")
+        if flush_found:
+            cw.replace_span(fa - off, fb - off, "region_writer_final_flush(&mut classes, current_class);", "R11")
+        cw.replace_all_re(r"StringTable::new\(\)", "shim_string_table_new()", "R2", why="watto::StringTable::new behind a shim (abstract table)")
+        cw.replace_all_re(r"BTreeMap::new\(\)", "shim_btree_new()", "R2", why="BTreeMap::new: empty map view")
+        cw.replace_all_re(r"ClassInProgress::default\(\)", "shim_default_cip()", "R2", why="derived Default for ClassInProgress (same shim as `..Default::default()` in the Class arm)")
+        mr = re.search(r"let\s+mut\s+(\w+)\s*=\s*(\w+)\.iter\(\)\.filter_map\(Result::ok\)\.peekable\(\)\s*;", cw.orig)
+        if not mr:
+            raise AnchorLost("write: `let mut records = mapping.iter().filter_map(Result::ok).peekable();` not found")
+        recs, mpg = mr.group(1), mr.group(2)
+        cw.replace_span(mr.start(), mr.end(), "let mut %s = shim_ok_records(%s);" % (recs, mpg), "R2",
+                        "Iterator::filter_map(Result::ok).peekable() behind a shim: ghost view = the Ok records still to come")
+        cw.insert_at(mr.end(), """
+        let ghost recs = ok_records(*%s);
+        let ghost mut n: int = 0;
+        proof { assert(recs.skip(0) == recs); }""" % mpg)
+        lp = cw.loops()
+        if not lp or lp[0][0] != "while":
+            raise AnchorLost("write: record loop not found")
+
+        def nxt(expr):
+            if expr != "%s.next()" % recs:
+                raise AnchorLost("write: the loop does not pull from `%s.next()`" % recs)
+            return "shim_peek_next(&mut %s)" % recs
+        cw.while_let_to_loop(1, scrutinee_map=nxt, spec="""            invariant
+                0 <= n <= recs.len(), recs.len() < u32::MAX, pk_rest(%s) == recs.skip(n),
+                /*@L:every_finished_class_has_counts_equal_to_its_records:C09,C02*/ all_wf(bmap(classes)) && wf_cip(current_class),
+                current_class.class.members_len <= n, current_class.class.members_by_params_len <= n,
+            ensures n == recs.len(),
+            decreases recs.len() - n,""" % recs,
+                             after_next="""            proof {
+                assert(recs.skip(n).drop_first() == recs.skip(n + 1));
+                n = n + 1;
+            }
+""")
+        u.emit(cw, prefix="""fn region_write_collect<'d>(mapping: &ProguardMapping<'d>) -> (ret: (StringTable, BTreeMap<&'d str, ClassInProgress<'d>>))
+    requires
+        // representable domain: fewer than 2^32 records (the per-class u32 counters cannot overflow)
+        ok_records(*mapping).len() < u32::MAX,
     ensures
-        /*@L:last_class_is_stored_like_every_other_one_last_definition_wins:C04,C02,C09*/ bmap(*final(classes))
-            == (if current_class.name@.len() > 0 { bmap(*old(classes)).insert(current_class.name, current_class) } else { bmap(*old(classes)) }),
+        /*@L:every_class_handed_to_the_tail_has_counts_equal_to_its_records:C09,C02*/ forall|i: int| 0 <= i < vals(ret.1).len() ==> wf_cip(#[trigger] vals(ret.1)[i]),
 {
-""", suffix="\n}\n")
+""", suffix="""
+    proof { axiom_vals_in_bmap(classes); }
+    (string_table, classes)
+}
+""")
     u.raw(FOOTER, "footer")
     return u
